@@ -1,24 +1,34 @@
-// C12 harness: drives the real types.ValidatorSet (NewValidatorSet, IncrementProposerPriority,
-// UpdateWithChangeSet, Copy, GetProposer, TotalVotingPower) with generated histories, prints the
-// projected observables for the model driver, and evaluates the property directly on the
-// implementation: a math/big re-implementation of the specified weighted round-robin and of the
-// change-set rules, atomicity on error, order independence, priority window / centring, and
-// fairness (proportional share, no starvation) over long runs.
-package main
+//go:build verif
+
+// C12 harness (in-package, injected with -overlay): drives the real types.ValidatorSet
+// (NewValidatorSet, IncrementProposerPriority, UpdateWithChangeSet, Copy, GetProposer,
+// TotalVotingPower) and the cstate path calculateValidatorSetUpdates + updateState with generated
+// histories, prints the projected observables for the model driver, and evaluates the property
+// directly on the implementation: a math/big re-implementation of the specified weighted
+// round-robin and of the change-set / report rules, atomicity on error, order independence,
+// priority window / centring, isolation, and fairness (proportional share, no starvation).
+package cstate
 
 import (
+	"bufio"
+	"encoding/json"
+	"flag"
 	"fmt"
 	"math"
 	"math/big"
+	"os"
+	"path/filepath"
 	"sort"
 	"strings"
+	"testing"
 
 	"github.com/kardiachain/go-kardia/lib/common"
+	"github.com/kardiachain/go-kardia/lib/log"
 	"github.com/kardiachain/go-kardia/types"
-
-	"verif/harness/internal/gen"
-	"verif/harness/internal/out"
 )
+
+var _ = log.New
+
 
 const nSlots = 4
 
@@ -121,7 +131,7 @@ func catch(f func()) (panicked bool, msg string) {
 }
 
 // observe prints "status T=.. P=.. V=..[ S=..]" for the set as the model driver does.
-func observe(o *out.Out, step int, vs *types.ValidatorSet, ask bool, status string, seq []uint64) string {
+func observe(o *c12Out, step int, vs *types.ValidatorSet, ask bool, status string, seq []uint64) string {
 	tot := "PANIC"
 	if p, m := catch(func() { tot = fmt.Sprint(vs.TotalVotingPower()) }); p {
 		tot = "PANIC"
@@ -376,7 +386,7 @@ func classes(m map[string]bool) string {
 
 // ---------------------------------------------------------------- window / centring checks
 
-func checkCentred(o *out.Out, step int, rs []vrec, where string) {
+func checkCentred(o *c12Out, step int, rs []vrec, where string) {
 	if len(rs) == 0 {
 		return
 	}
@@ -386,7 +396,7 @@ func checkCentred(o *out.Out, step int, rs []vrec, where string) {
 	}
 }
 
-func checkWindow(o *out.Out, step int, rs []vrec, extra *big.Int, where string) {
+func checkWindow(o *c12Out, step int, rs []vrec, extra *big.Int, where string) {
 	if len(rs) == 0 {
 		return
 	}
@@ -415,16 +425,29 @@ func powerSpread(rs []vrec) *big.Int {
 
 // ---------------------------------------------------------------- main
 
-func main() {
-	out.WriteFacts(func() string {
+func c12FactsText() string {
+	body := func() string {
 		return fmt.Sprintf("From Coq Require Import ZArith.\nDefinition max_total_voting_power : Z := %d%%Z.\nDefinition priority_window_size_factor : Z := %d%%Z.\nDefinition go_max_int64 : Z := %d%%Z.\nDefinition go_min_int64 : Z := (%d)%%Z.\n",
 			types.MaxTotalVotingPower, int64(types.PriorityWindowSizeFactor), int64(math.MaxInt64), int64(math.MinInt64))
-	})
-	o := out.Open()
+	}()
+	return "(* GENERATED from /repo's working tree by the harness (-facts); do not edit. *)\n" + body
+}
+
+func TestVerifC12(t *testing.T) {
+	if *c12Facts != "" {
+		if err := os.WriteFile(*c12Facts, []byte(c12FactsText()), 0o644); err != nil {
+			t.Fatal(err)
+		}
+		return
+	}
+	if *c12Dir == "" {
+		t.Skip("-out required")
+	}
+	o := c12Open()
 	o.Rule = "a case is one history over up to four ValidatorSets (NewValidatorSet, IncrementProposerPriority(k), UpdateWithChangeSet, Copy, runs of single rounds); non-trivial = the history contains a successful membership/power change, a rejected change set, a rescale (spread above the window) or a tie-break; distinct by (initial powers, op-kind string, outcome string)"
-	root := gen.New(*out.Seed)
-	for c := 0; c < *out.N; c++ {
-		if !out.Want(c) {
+	root := c12NewRand(*c12Seed)
+	for c := 0; c < *c12N; c++ {
+		if !c12Want(c) {
 			continue
 		}
 		runCase(o, root.Fork(uint64(c)), c)
@@ -433,8 +456,8 @@ func main() {
 }
 
 type world struct {
-	o     *out.Out
-	r     *gen.Rand
+	o     *c12Out
+	r     *c12Rand
 	slots [nSlots]*types.ValidatorSet
 	step  int
 	kinds []string
@@ -445,7 +468,7 @@ type world struct {
 
 func capTotal() int64 { return types.MaxTotalVotingPower }
 
-func genPowers(r *gen.Rand, n int) ([]int64, int) {
+func genPowers(r *c12Rand, n int) ([]int64, int) {
 	powers := make([]int64, n)
 	kind := r.Pick(3, 4, 2, 2, 2, 2, 1)
 	switch kind {
@@ -812,6 +835,272 @@ func (w *world) doRounds(slot int, rounds int, ask bool, afterChange bool) {
 	w.o.Op(fmt.Sprintf("R %d %d %d", slot, a, rounds), observe(w.o, w.step, vs, ask, status, seq))
 }
 
+// ---- the cstate path: calculateValidatorSetUpdates + updateState (validator part)
+
+// specReportChanges: the change set the specification derives from a report of the full new
+// validator set: entries that are new or whose power differs, plus a removal for every member
+// the report omits.  dup = an address is reported twice (the whole report is invalid).
+func specReportChanges(cur []vrec, report []vrec) (changes []vrec, dup bool) {
+	if len(report) == 0 {
+		return nil, false
+	}
+	seen := map[uint64]bool{}
+	for _, e := range report {
+		if seen[e.id] {
+			return report, true
+		}
+		seen[e.id] = true
+	}
+	curPow := map[uint64]int64{}
+	isMember := map[uint64]bool{}
+	for _, v := range cur {
+		curPow[v.id] = v.power
+		isMember[v.id] = true
+	}
+	for _, e := range report {
+		if !isMember[e.id] || curPow[e.id] != e.power {
+			changes = append(changes, e)
+		}
+	}
+	for _, v := range cur {
+		if !seen[v.id] {
+			changes = append(changes, vrec{v.id, 0, 0})
+		}
+	}
+	return changes, false
+}
+
+func (w *world) doReport(slot int, report []vrec, kind string, ask bool) {
+	w.step++
+	vs := w.slots[slot]
+	before := w.current(slot)
+	if len(before) == 0 {
+		return
+	}
+	st := LatestBlockState{ChainID: "verif", InitialHeight: 1, LastBlockHeight: 10, NextValidators: vs,
+		Validators: vs.Copy(), LastValidators: vs.Copy(), LastHeightValidatorsChanged: 1}
+	header := &types.Header{Height: 11}
+	var ns LatestBlockState
+	var err error
+	panicked, msg := catch(func() {
+		ups := calculateValidatorSetUpdates(st.NextValidators.Validators, mkVals(report))
+		ns, err = updateState(log.New(), st, types.BlockID{}, header, ups)
+	})
+	status := errClass(err)
+	if panicked {
+		status = "PANIC"
+		w.o.Fail(w.step, "panic", fmt.Sprintf("report:%s before=%s report=%s", msg, recsStr(before), recsStr(report)))
+	} else {
+		// updateState works on a copy: the set it was given is never touched
+		if !sameRecs(before, snapshot(vs)) {
+			w.o.Fail(w.step, "atomic", fmt.Sprintf("updateState changed its input: before=%s report=%s now=%s", recsStr(before), recsStr(report), recsStr(snapshot(vs))))
+		}
+		changes, dup := specReportChanges(before, report)
+		var want []sval
+		var errs map[string]bool
+		switch {
+		case dup:
+			errs = map[string]bool{"err:dup": true}
+			if _, e2 := specUpdate(toSpec(before), report, true, capTotal(), types.PriorityWindowSizeFactor); e2 != nil {
+				for k := range e2 {
+					errs[k] = true
+				}
+			}
+		case len(changes) == 0:
+			want = toSpec(before)
+		default:
+			want, errs = specUpdate(toSpec(before), changes, true, capTotal(), types.PriorityWindowSizeFactor)
+		}
+		switch {
+		case err != nil && errs == nil:
+			w.o.Fail(w.step, "spec-report", fmt.Sprintf("valid report rejected (%s): before=%s report=%s", status, recsStr(before), recsStr(report)))
+		case err == nil && errs != nil:
+			w.o.Fail(w.step, "rejects", fmt.Sprintf("invalid report accepted (%s): before=%s report=%s after=%s", classes(errs), recsStr(before), recsStr(report), recsStr(snapshot(ns.NextValidators))))
+		case err != nil:
+			if !errs[status] {
+				w.o.Fail(w.step, "spec-report", fmt.Sprintf("error class %s not among %s: before=%s report=%s", status, classes(errs), recsStr(before), recsStr(report)))
+			}
+			if ns.NextValidators != vs {
+				w.o.Fail(w.step, "atomic", "error but updateState returned another NextValidators")
+			}
+		default:
+			prop := specIncrement(want, 1, types.PriorityWindowSizeFactor)
+			got := snapshot(ns.NextValidators)
+			if !specMatches(want, got) {
+				w.o.Fail(w.step, "spec-report", fmt.Sprintf("before=%s report=%s got=%s want=%s", recsStr(before), recsStr(report), recsStr(got), specStr(want)))
+			}
+			if g := ns.NextValidators.GetProposer(); g == nil || idNum(g.Address) != prop {
+				w.o.Fail(w.step, "spec-proposer", fmt.Sprintf("report: before=%s report=%s want proposer %d", recsStr(before), recsStr(report), prop))
+			}
+			if !sameRecs(before, snapshot(ns.Validators)) {
+				w.o.Fail(w.step, "spec-report", "Validators of the new state is not the previous NextValidators")
+			}
+			checkCentred(w.o, w.step, got, "after-report")
+		}
+		if err == nil {
+			w.slots[slot] = ns.NextValidators
+		}
+	}
+	w.note("report."+kind, status)
+	if status != "ok" {
+		w.o.Mark(fmt.Sprintf("report-reject:%s:%s:%s", status, recsStr(before), recsStr(report)))
+	} else {
+		w.o.Mark(fmt.Sprintf("report:%s:%s", recsStr(before), recsStr(report)))
+	}
+	a := 0
+	if ask {
+		a = 1
+	}
+	w.isolate(slot)
+	w.o.Op(fmt.Sprintf("A %d %d %d%s", slot, a, len(report), triples(report)), observe(w.o, w.step, w.slots[slot], ask, status, nil))
+}
+
+// genReport: a report of the full new validator set derived from the current one.
+func (w *world) genReport(cur []vrec) ([]vrec, string) {
+	r := w.r
+	rep := make([]vrec, 0, len(cur)+4)
+	for _, v := range cur {
+		rep = append(rep, vrec{v.id, v.power, 0})
+	}
+	name := ""
+	small := func() int64 { return int64(1 + r.Intn(20)) }
+	fits := func(p int64) int64 { // keep additions within the room left
+		if rm := room(cur); p > rm/4 {
+			if rm/4 >= 1 {
+				return rm / 4
+			}
+			return 0
+		}
+		return p
+	}
+	changeSome := func() {
+		for i := range rep {
+			if r.Chance(1, 3) {
+				np := small()
+				if np > rep[i].power {
+					np = rep[i].power + fits(np-rep[i].power)
+				}
+				rep[i].power = np
+			}
+		}
+	}
+	addSome := func() {
+		tmp := append([]vrec{}, cur...)
+		for i := 0; i < 1+r.Intn(2); i++ {
+			p := fits(small())
+			if p < 1 {
+				return
+			}
+			v := vrec{w.freshID(tmp), p, int64(r.Intn(3))}
+			tmp = append(tmp, v)
+			rep = append(rep, v)
+		}
+	}
+	omitSome := func() {
+		if len(rep) > 1 {
+			i := r.Intn(len(rep))
+			rep = append(rep[:i], rep[i+1:]...)
+		}
+	}
+	switch r.Pick(3, 4, 4, 3, 3, 4, 6, 3, 2, 2, 2, 1, 1, 2) {
+	case 0:
+		name = "same"
+	case 1:
+		name = "power"
+		changeSome()
+	case 2:
+		name = "add"
+		addSome()
+	case 3:
+		name = "omit"
+		omitSome()
+	case 4:
+		name = "zero-known"
+		if len(rep) > 1 {
+			rep[r.Intn(len(rep))].power = 0
+		}
+	case 5:
+		name = "mixed"
+		changeSome()
+		omitSome()
+		addSome()
+	case 6:
+		name = "bad-zero-unknown" // power 0 for an address that is not a member, next to real changes
+		switch r.Intn(3) {
+		case 0:
+			changeSome()
+		case 1:
+			addSome()
+		case 2:
+			omitSome()
+		}
+		tmp := append(append([]vrec{}, cur...), rep...)
+		rep = append(rep, vrec{w.freshID(tmp), 0, 0})
+		if r.Chance(1, 3) { // force at least one real change
+			rep[0].power++
+			if room(cur) < 1 {
+				rep[0].power -= 2
+				if rep[0].power < 1 {
+					rep[0].power = 1
+				}
+			}
+		}
+	case 7:
+		name = "bad-dup"
+		if r.Bool() {
+			changeSome()
+		}
+		d := rep[r.Intn(len(rep))]
+		if r.Bool() {
+			d.power = small()
+		}
+		rep = append(rep, d)
+	case 8:
+		name = "bad-neg"
+		rep[r.Intn(len(rep))].power = -int64(1 + r.Intn(100))
+		if r.Bool() {
+			addSome()
+		}
+	case 9:
+		name = "bad-toobig"
+		if r.Bool() {
+			rep[r.Intn(len(rep))].power = capTotal() + 1 + int64(r.Intn(3))
+		} else {
+			rep = append(rep, vrec{w.freshID(cur), capTotal() + 1, 0})
+		}
+	case 10:
+		name = "bad-total"
+		rm := room(cur)
+		rep = append(rep, vrec{w.freshID(cur), rm + 1 + int64(r.Intn(2)), 0})
+		if rep[len(rep)-1].power > capTotal() {
+			rep[len(rep)-1].power = capTotal()
+		}
+	case 11:
+		name = "empty"
+		rep = rep[:0]
+	case 12:
+		name = "all-zero"
+		for i := range rep {
+			rep[i].power = 0
+		}
+	case 13:
+		name = "replace-all"
+		rep = rep[:0]
+		tmp := append([]vrec{}, cur...)
+		for i := 0; i < 1+r.Intn(3); i++ {
+			v := vrec{w.freshID(tmp), small(), 0}
+			tmp = append(tmp, v)
+			rep = append(rep, v)
+		}
+	}
+	p := r.Perm(len(rep))
+	sh := make([]vrec, len(rep))
+	for i, j := range p {
+		sh[i] = rep[j]
+	}
+	return sh, name
+}
+
 // ---------------------------------------------------------------- change-set generators
 
 const poolSize = 12
@@ -858,7 +1147,7 @@ func (w *world) somePower(cur []vrec) int64 {
 func (w *world) genChanges(cur []vrec) ([]vrec, string) {
 	r := w.r
 	var cs []vrec
-	kind := r.Pick(5, 5, 4, 5, 3, 2, 2, 2, 2, 2, 2, 1, 1, 1, 1)
+	kind := r.Pick(5, 5, 4, 5, 3, 2, 2, 2, 2, 2, 2, 1, 1, 1, 1, 4, 3)
 	name := ""
 	pickCur := func() vrec { return cur[r.Intn(len(cur))] }
 	distinctCur := func(k int) []vrec {
@@ -872,9 +1161,10 @@ func (w *world) genChanges(cur []vrec) ([]vrec, string) {
 		}
 		return res
 	}
-	if len(cur) == 0 && kind != 0 && kind != 5 && kind != 6 {
+	if len(cur) == 0 && kind != 0 && kind != 5 && kind != 6 && kind != 15 {
 		kind = 0
 	}
+	noTrunc := false
 	switch kind {
 	case 0:
 		name = "add"
@@ -1038,6 +1328,87 @@ func (w *world) genChanges(cur []vrec) ([]vrec, string) {
 		if r.Bool() {
 			cs = append(cs, vrec{w.freshID(cur), 2, 0})
 		}
+	case 15:
+		// k entries, each individually legal, whose partial sums exceed the cap, exceed 2^63 and
+		// (from 16 entries on) wrap back into range; some variants fit exactly
+		name = "wrap"
+		noTrunc = true
+		k := 2 + r.Intn(15)
+		style := r.Intn(6)
+		tmp := append([]vrec{}, cur...)
+		members := distinctCur(len(cur))
+		for i := 0; i < k; i++ {
+			var p int64
+			switch style {
+			case 0:
+				p = capTotal()/int64(k) + int64(r.Intn(5)) - 2
+			case 1:
+				p = capTotal()/2 + int64(r.Intn(2))
+			case 2:
+				p = capTotal() - 1
+			case 3:
+				p = capTotal()
+			case 4:
+				p = []int64{capTotal(), capTotal() - 1, capTotal()/2 + 1, capTotal() / int64(k)}[r.Intn(4)]
+			default:
+				p = capTotal()/int64(k) - int64(len(cur)+2) // may fit once the members are removed
+			}
+			if p < 1 {
+				p = 1
+			}
+			if i < len(members) && r.Chance(1, 4) { // raise a member instead of adding
+				cs = append(cs, vrec{members[i].id, p, 0})
+				continue
+			}
+			v := vrec{w.freshID(tmp), p, 0}
+			tmp = append(tmp, v)
+			cs = append(cs, v)
+		}
+		if len(cur) > 0 && (style == 5 || r.Chance(1, 3)) { // removals in the same change set
+			used := map[uint64]bool{}
+			for _, c := range cs {
+				used[c.id] = true
+			}
+			for _, v := range cur {
+				if !used[v.id] && (style == 5 || r.Bool()) {
+					cs = append(cs, vrec{v.id, 0, 0})
+				}
+			}
+		}
+	case 16:
+		// legal only if the decrease / removal is accounted before the increase
+		name = "order-legal"
+		v := pickCur()
+		rm := room(cur)
+		freed := v.power
+		if v.power > 1 && r.Bool() {
+			d := 1 + int64(r.Intn(int(min64(v.power-1, 1000))))
+			cs = append(cs, vrec{v.id, v.power - d, 0})
+			freed = d
+		} else if len(cur) > 1 {
+			cs = append(cs, vrec{v.id, 0, 0})
+		} else {
+			freed = 0
+		}
+		extra := int64(r.Intn(2)) // 0: exactly at the cap, 1: one above
+		np := rm + freed + extra
+		if np > capTotal() {
+			np = capTotal()
+		}
+		if np < 1 {
+			np = 1
+		}
+		var other *vrec
+		for i := range cur {
+			if cur[i].id != v.id {
+				other = &cur[i]
+			}
+		}
+		if other != nil && r.Bool() && other.power+np <= capTotal() {
+			cs = append(cs, vrec{other.id, other.power + np, 0})
+		} else {
+			cs = append(cs, vrec{w.freshID(cur), np, 0})
+		}
 	case 13:
 		name = "empty-changes"
 	case 14:
@@ -1055,7 +1426,7 @@ func (w *world) genChanges(cur []vrec) ([]vrec, string) {
 			cs = cs[len(cs)-12:]
 		}
 	}
-	if len(cs) > 12 { // sort.Sort is a stable insertion sort only up to 12 elements
+	if len(cs) > 12 && !noTrunc { // sort.Sort is a stable insertion sort only up to 12 elements
 		cs = cs[:12]
 	}
 	// random presentation order
@@ -1067,7 +1438,14 @@ func (w *world) genChanges(cur []vrec) ([]vrec, string) {
 	return sh, name
 }
 
-func pickTimes(r *gen.Rand, allowBig bool) int64 {
+func min64(a, b int64) int64 {
+	if a < b {
+		return a
+	}
+	return b
+}
+
+func pickTimes(r *c12Rand, allowBig bool) int64 {
 	switch r.Pick(10, 4, 3, 2, 2, 1) {
 	case 0:
 		return 1
@@ -1087,7 +1465,7 @@ func pickTimes(r *gen.Rand, allowBig bool) int64 {
 	}
 }
 
-func runCase(o *out.Out, r *gen.Rand, c int) {
+func runCase(o *c12Out, r *c12Rand, c int) {
 	w := &world{o: o, r: r}
 	for i := range w.slots {
 		w.slots[i] = types.NewValidatorSet(nil)
@@ -1188,14 +1566,17 @@ func runCase(o *out.Out, r *gen.Rand, c int) {
 			w.doRounds(slot, rounds, ask(), changed)
 			changed = false
 			cs, nm := w.genChanges(w.current(slot))
-			if nm == "bad-cap" || nm == "cap-exact" || nm == "bad-toobig" {
+			if nm == "bad-cap" || nm == "cap-exact" || nm == "bad-toobig" || nm == "wrap" || nm == "order-legal" {
 				cs, nm = []vrec{{cur[0].id, 1, 0}}, "collapse"
 			}
 			w.doUpdate(slot, cs, nm, ask())
 			changed = true
 			continue
 		}
-		switch r.Pick(10, 9, 2, 1, 1) {
+		switch r.Pick(10, 9, 2, 1, 1, 4) {
+		case 5:
+			rep, nm := w.genReport(cur)
+			w.doReport(slot, rep, nm, ask())
 		case 0:
 			k := pickTimes(r, !bigUsed && c%50 == 3)
 			if k > 5 {
@@ -1233,4 +1614,191 @@ func runCase(o *out.Out, r *gen.Rand, c int) {
 	if nontrivial {
 		o.Mark(sig)
 	}
+}
+
+// ---------------------------------------------------------------- PRNG (copy of harness/internal/gen)
+
+type c12Rand struct{ s uint64 }
+
+func c12NewRand(seed uint64) *c12Rand { return &c12Rand{s: seed*0x9E3779B97F4A7C15 + 0x1234567} }
+
+// Fork derives an independent stream for case i (so -only i regenerates the same case).
+func (r *c12Rand) Fork(i uint64) *c12Rand {
+	return &c12Rand{s: r.s ^ (i+1)*0xBF58476D1CE4E5B9}
+}
+
+func (r *c12Rand) U64() uint64 {
+	r.s += 0x9E3779B97F4A7C15
+	z := r.s
+	z = (z ^ (z >> 30)) * 0xBF58476D1CE4E5B9
+	z = (z ^ (z >> 27)) * 0x94D049BB133111EB
+	return z ^ (z >> 31)
+}
+
+func (r *c12Rand) Intn(n int) int {
+	if n <= 0 {
+		return 0
+	}
+	return int(r.U64() % uint64(n))
+}
+
+func (r *c12Rand) Bool() bool { return r.U64()&1 == 1 }
+
+// Chance returns true with probability num/den.
+func (r *c12Rand) Chance(num, den int) bool { return r.Intn(den) < num }
+
+// Pick returns an index distributed according to the weights.
+func (r *c12Rand) Pick(weights ...int) int {
+	t := 0
+	for _, w := range weights {
+		t += w
+	}
+	x := r.Intn(t)
+	for i, w := range weights {
+		if x < w {
+			return i
+		}
+		x -= w
+	}
+	return len(weights) - 1
+}
+
+func (r *c12Rand) Bytes(n int) []byte {
+	b := make([]byte, n)
+	for i := range b {
+		b[i] = byte(r.U64())
+	}
+	return b
+}
+
+// Perm returns a random permutation of 0..n-1.
+func (r *c12Rand) Perm(n int) []int {
+	p := make([]int, n)
+	for i := range p {
+		p[i] = i
+	}
+	for i := n - 1; i > 0; i-- {
+		j := r.Intn(i + 1)
+		p[i], p[j] = p[j], p[i]
+	}
+	return p
+}
+
+// ---------------------------------------------------------------- output files (copy of harness/internal/out)
+
+type c12Out struct {
+	dir              string
+	fin, fimpl, forc *os.File
+	In, Impl, Orc    *bufio.Writer
+	Dist             map[string]int
+	Samples          []string
+	Cases, Ops       int
+	Nontrivial       map[string]bool
+	Rule             string
+	Fails            int
+	curCase          int
+	curSample        []string
+	maxSamples       int
+}
+
+var (
+	c12Seed  = flag.Uint64("seed", 1, "PRNG seed")
+	c12N     = flag.Int("n", 100, "number of generated cases")
+	c12Dir   = flag.String("out", "", "output directory")
+	c12Only  = flag.Int("only", -1, "generate and run only this case index")
+	c12Tier  = flag.String("tier", "quick", "quick|thorough")
+	c12Facts = flag.String("facts", "", "write Generated/C12Facts.v to this path and exit")
+)
+
+
+func c12Open() *c12Out {
+	if *c12Dir == "" {
+		fmt.Fprintln(os.Stderr, "-out required")
+		os.Exit(2)
+	}
+	os.MkdirAll(*c12Dir, 0o755)
+	o := &c12Out{dir: *c12Dir, Dist: map[string]int{}, Nontrivial: map[string]bool{}, maxSamples: 3}
+	var err error
+	if o.fin, err = os.Create(filepath.Join(*c12Dir, "in.txt")); err != nil {
+		panic(err)
+	}
+	o.fimpl, _ = os.Create(filepath.Join(*c12Dir, "impl.txt"))
+	o.forc, _ = os.Create(filepath.Join(*c12Dir, "oracle.txt"))
+	o.In, o.Impl, o.Orc = bufio.NewWriterSize(o.fin, 1<<20), bufio.NewWriterSize(o.fimpl, 1<<20), bufio.NewWriterSize(o.forc, 1<<16)
+	return o
+}
+
+// Want reports whether case i should be generated (honours -only).
+func c12Want(i int) bool { return *c12Only < 0 || *c12Only == i }
+
+// Case starts case n: header is the full "CASE n ..." line for the model driver.
+func (o *c12Out) Case(n int, header string) {
+	o.flushSample()
+	o.curCase = n
+	o.Cases++
+	fmt.Fprintln(o.In, header)
+	fmt.Fprintf(o.Impl, "CASE %d\n", n)
+	o.curSample = []string{header}
+}
+
+// Op records one operation (model input line(s)) and the implementation's observable line.
+func (o *c12Out) Op(input string, observed string) {
+	o.Ops++
+	fmt.Fprintln(o.In, input)
+	fmt.Fprintln(o.Impl, observed)
+	if len(o.curSample) < 40 {
+		o.curSample = append(o.curSample, input+"  =>  "+observed)
+	}
+}
+
+// InOnly writes an input line that produces no observable (declarations).
+func (o *c12Out) InOnly(line string) {
+	fmt.Fprintln(o.In, line)
+	if len(o.curSample) < 40 {
+		o.curSample = append(o.curSample, line)
+	}
+}
+
+func (o *c12Out) flushSample() {
+	if o.curSample != nil && len(o.Samples) < o.maxSamples {
+		s := ""
+		for _, l := range o.curSample {
+			s += l + "\n"
+		}
+		o.Samples = append(o.Samples, s)
+	}
+	o.curSample = nil
+}
+
+// Fail records a direct-oracle failure on the implementation.
+func (o *c12Out) Fail(step int, class string, detail string) {
+	o.Fails++
+	fmt.Fprintf(o.Orc, "FAIL case=%d step=%d class=%s %s\n", o.curCase, step, class, detail)
+}
+
+func (o *c12Out) Count(key string) { o.Dist[key]++ }
+
+// Mark registers a distinct non-trivial case signature (counted once per distinct key).
+func (o *c12Out) Mark(key string) { o.Nontrivial[key] = true }
+
+func (o *c12Out) Close() {
+	o.flushSample()
+	o.In.Flush()
+	o.Impl.Flush()
+	o.Orc.Flush()
+	o.fin.Close()
+	o.fimpl.Close()
+	o.forc.Close()
+	keys := make([]string, 0, len(o.Dist))
+	for k := range o.Dist {
+		keys = append(keys, k)
+	}
+	sort.Strings(keys)
+	st := map[string]interface{}{
+		"cases": o.Cases, "ops": o.Ops, "distinct_nontrivial": len(o.Nontrivial),
+		"rule": o.Rule, "dist": o.Dist, "samples": o.Samples, "oracle_failures": o.Fails,
+		"seed": *c12Seed,
+	}
+	b, _ := json.MarshalIndent(st, "", " ")
+	os.WriteFile(filepath.Join(o.dir, "stats.json"), b, 0o644)
 }
